@@ -483,7 +483,7 @@ def _run_history(si, ops, ctx):
                      lost_blocks[:4], "unchanged")
             return
         if changed_fields:
-            # known finding K04: exactly the six field objects, never group members
+            # (former known finding K04, fixed as F20: the key no longer matches anything)
             only_fields = all(kind == "field" and name in FIELD_NAMES for name, kind in changed_fields)
             known_op = op.split("=")[0] in ("platform", "type", "port_nr", "protocol_nr")
             kf = KF_FIELD if only_fields and known_op else None
